@@ -25,7 +25,7 @@ REGISTRY = {
             "per_run_timeout": 120.0, "shrink_budget": 40.0},
     "C08": {"module": "engines.c08_paths", "level": "exploration", "quick": 1200, "thorough": 40000,
             "per_run_timeout": 180.0, "shrink_budget": 60.0, "determinism_sample": 48},
-    "C13": {"module": "engines.c13_unwind", "level": "fault_enumeration", "quick": 4000, "thorough": 120000,
+    "C13": {"module": "engines.c13_unwind", "level": "fault_enumeration", "quick": 2500, "thorough": 100000,
             "per_run_timeout": 120.0, "shrink_budget": 60.0},
     "C14": {"module": "engines.c14_lookup", "level": "exploration", "quick": 36000, "thorough": 700000},
     "C15": {"module": "engines.c15_modfiles", "level": "fault_enumeration", "quick": 1500, "thorough": 30000,
